@@ -2323,6 +2323,9 @@ func descriptorKeptIntact(c *Ctx, setter *ssa.Function) (string, int) {
 								for _, rv := range ret.Results {
 									if isDesc(rv.Type()) && reachesValue(rv, cal.Params[argIdx], 0) {
 										follow(x, d+1)
+									} else if isDesc(rv.Type()) && isDesc(x.Type()) {
+										// the helper can also hand back another descriptor (the one the entity already had)
+										bad = shortName(cal) + " does not always hand back the derived descriptor (" + p.ipos(ret) + "): the entity can keep a descriptor of its own"
 									}
 								}
 							}
